@@ -2,7 +2,7 @@
 import itertools
 
 from core import nats, exc_kind, safe_check
-from props.c02 import bits, _arr, DTYPES, MAXV, gen_pair, rand_sorted
+from props.c02 import bits, _arr, DTYPES, MAXV, gen_pair, rand_sorted, gen_pair_wide, fit_dtype, BOUNDARY
 
 PROPS = ('GambitV.Props.C15', 'GambitV.C15')
 TIE = [('GambitV.Tie.Metric', 'GambitV.Tie.Metric')]
@@ -73,11 +73,12 @@ def run(ctx):
 				nt = bool(a) and bool(b) and bool(c) and a != b and b != c and a != c
 				sub({'kind': 'triple', 'a': a, 'b': b, 'c': c, 'dts': ['u2', 'u4', 'u8']}, 'exh-5', nt)
 	ctx.exhaustive = ['all 32^3 triples of subsets of a 5-element universe']
-	for j in range(ctx.q(1500, 40000)):
+	for j in range(ctx.q(4000, 40000)):
 		if not ctx.time_left(0.85):
 			break
 		big = rng.random() < 0.05
-		a, b = gen_pair(rng, ctx.q(400, 2000) if big else 60)
+		wide = rng.random() < 0.45
+		a, b = gen_pair_wide(rng) if wide else gen_pair(rng, ctx.q(400, 2000) if big else 60)
 		r = rng.random()
 		if r < 0.3:
 			c = sorted(set(a) | set(b))
@@ -87,11 +88,10 @@ def run(ctx):
 			c = sorted(set(a) ^ set(b))
 		else:
 			c = gen_pair(rng, 60)[0]
-		dts = [rng.choice(DTYPES) for _ in range(3)]
-		if max(a + b + c + [0]) > 2 ** 15 - 1:
-			dts = ['u8', 'u4', 'i8']
+		dts = [fit_dtype(rng, a), fit_dtype(rng, b), fit_dtype(rng, c)]
 		nt = bool(a) and bool(b) and bool(c) and a != b and b != c and a != c
 		sub({'kind': 'triple', 'a': a, 'b': b, 'c': c, 'dts': dts}, 'random-triple', nt)
 		if rng.random() < 0.5:
-			x = max(a + b + [0]) + rng.randint(1, 5)
+			cand = [v for v in BOUNDARY + [max(a + b + [0]) + rng.randint(1, 5)] if v not in a and v not in b and v < 2 ** 64]
+			x = rng.choice(cand)
 			sub({'kind': 'addcommon', 'a': a, 'b': b, 'x': x}, 'addcommon', bool(a) and a != b)
